@@ -4,6 +4,8 @@
 # Uses the persistent scratch worktree /tmp/mutrepo (git worktree of /repo) and a copy of /verif in
 # /tmp/vmut (its own .build, so the shared library build is not disturbed).
 set -e
+# one user at a time: the scratch worktree and copy are shared
+if [ -z "$MUTRIG_LOCKED" ]; then MUTRIG_LOCKED=1 exec flock /tmp/mutrig.lock env MUTRIG_LOCKED=1 "$0" "$@"; fi
 ID=$1; PATCH=$2; TIER=${3:-quick}
 [ -d /tmp/mutrepo ] || git -C /repo worktree add --detach /tmp/mutrepo HEAD -q
 git -C /tmp/mutrepo checkout -q --detach "$(git -C /repo rev-parse HEAD)"
